@@ -263,6 +263,37 @@ def rule_errorlocs(chk, prog, tier):
     r.exhaustive = True
 
 
+# ------------------------------------------------------------------ C11.g the checked token's own location
+
+def rule_tokencheck(chk, prog, tier):
+    r = chk.rule('C11.g', 'a diagnostic about a token carries that token\'s location, also when the token examined is not the current token (macro bodies are checked token by token while the current token stays behind)', floor=4)
+    fn = prog.require_func('tokencheck', 'token.c')
+    for kind, want in (('TIDENT', 'TNUMBER'), ('TNUMBER', 'TIDENT'), ('TEOF', 'TNEWLINE'), ('TPLUS' if 'TPLUS' in prog.enumval else 'TADD', 'TIDENT')):
+        def runner(it):
+            tokobj = it.gobj('tok')
+            tokobj.f[('kind',)] = ev(prog, 'TRPAREN'); tokobj.f[('lit',)] = None
+            tokobj.f[('loc', 'file')] = Ptr(it.mkstr(list(b'cur.c'), 'f'), (0,)); tokobj.f[('loc', 'line')] = 20; tokobj.f[('loc', 'col')] = 9
+            t = Obj('checked', 'heap')
+            t.f[('kind',)] = ev(prog, kind); t.f[('lit',)] = Ptr(it.mkstr(list(b'x'), 'x'), (0,)) if kind in ('TIDENT', 'TNUMBER') else None
+            t.f[('loc', 'file')] = Ptr(it.mkstr(list(b'cur.c'), 'f'), (0,)); t.f[('loc', 'line')] = 22; t.f[('loc', 'col')] = 3
+            seen = {}
+            def error(i2, a, e):
+                loc = a[0]
+                seen['loc'] = (i2.load(loc.obj, loc.path + ('line',)), i2.load(loc.obj, loc.path + ('col',))) if isinstance(loc, Ptr) else None
+                raise Terminal('error', 'x')
+            it.models.update({'error': error, 'tokendesc': lambda i2, a, e: None})
+            try:
+                it.call(fn, [Ptr(t, ()), ev(prog, want), Ptr(it.mkstr(list(b'here'), 'm'), (0,))])
+            except Terminal:
+                pass
+            return seen.get('loc')
+        runs = explore(prog, runner, {}, max_runs=4, on_unsupported='keep')
+        if len(runs) != 1 or runs[0].outcome != 'return':
+            raise AnalysisBroken('tokencheck: %s %s' % (runs[0].outcome if runs else '?', runs[0].detail if runs else ''))
+        r.instance(runs[0].value == (22, 3), 'tokencheck:%s-for-%s' % (kind, want), 'token.c:%s' % fn.get('line'), 'the diagnostic is located at %s; the offending token is at line 22 column 3 (the current token at 20:9)' % (runs[0].value,))
+    r.exhaustive = True
+
+
 def run(chk, tier):
     prog = facts.programs()['cproc-qbe']
     chk.guard('C11.a', lambda: rule_format(chk, prog, tier))
@@ -270,3 +301,4 @@ def run(chk, tier):
     chk.guard('C11.d', lambda: rule_tokenloc(chk, prog, tier))
     chk.guard('C11.e', lambda: rule_directive(chk, prog, tier))
     chk.guard('C11.f', lambda: rule_errorlocs(chk, prog, tier))
+    chk.guard('C11.g', lambda: rule_tokencheck(chk, prog, tier))
